@@ -150,6 +150,7 @@ type RunCfg struct {
 	PoolAnyPct   int `json:"pool_any_pct"`
 	PoolDropPct  int `json:"pool_drop_pct"`
 	FPYieldPct   int `json:"fp_yield_pct"`
+	ClockVaryPct int `json:"clock_vary_pct,omitempty"`
 }
 
 // World is the complete workload of one run.
